@@ -41,7 +41,7 @@ ASSUMPTIONS = [
     'reference = straight-alpha float `over`, opacity multiplies alpha, transparent_color makes |c-key|<=tol fully '
     'transparent, clip=true hides everything outside the coverage, without clip everything outside the coverage '
     'bbox is transparent and the part inside the bbox but outside the polygon is not judged (doc: "tries to serve the full image")',
-    'tolerance 2 levels per composited layer image (premultiplied for RGBA results); JPEG: + 10 + the range of the reference within 17 px, pixels with a range > 40 not judged',
+    'tolerance 2 levels per composited layer image (premultiplied for RGBA results); JPEG: + 10 + the range of the reference within 17 px, pixels with a range > 8 not judged',
     'not judged: pixels within 1.1 px of a coverage edge; pixels where a sub-requested (coverage-limited, hence up to '
     '1 px displaced) image varies by more than 3 levels within +-1 px or has a hole/cell edge within 1.5 px; for '
     'TRANSPARENT=TRUE + JPEG the pixels that are not opaque in the reference',
@@ -681,7 +681,7 @@ def compare(got, exp, judged, tol_px, transparent_result):
 def local_range(exp_rgb, radius=17):
     """Largest channel range of the reference within +-radius pixels (every JPEG 16x16 MCU that can touch the
     pixel plus one pixel of chroma bleeding): the JPEG tolerance of a pixel grows with it, and pixels with a
-    range above 40 levels are not judged."""
+    range above 8 levels are not judged (chroma subsampling makes larger errors near saturated edges)."""
     hi = exp_rgb.copy()
     lo = exp_rgb.copy()
     for axis in (0, 1):
@@ -834,9 +834,13 @@ def check_request(case, rq, app, up, st_, open_sigs, ri):
         if rq['transparent']:
             judged &= exp[..., 3] >= 254.5
             st_.notes['jpeg-transparent-request: non-opaque reference pixels not judged'] += 1
+        judged_geom = judged.copy()
         flat = flatten(exp, rq['bgcolor'])[..., :3]
         rng = local_range(flat)
-        judged &= rng <= 40.0
+        judged &= rng <= 8.0
+        # the picture is unknown at unjudged pixels (coverage edges ...): nothing that shares an MCU with them is judged
+        unknown = np.where(judged_geom, 0.0, 1000.0)[..., None]
+        judged &= local_range(np.concatenate([unknown, np.zeros(shape + (1,))], axis=-1)) == 0.0
         tol = tol + 10.0 + rng
         exp_cmp = np.concatenate([flat, np.full(shape + (1,), 255.0)], axis=-1)
     else:
@@ -899,6 +903,9 @@ def check_request(case, rq, app, up, st_, open_sigs, ri):
     st_.case(key=key, nontrivial=bool(nt), classes=classes, sample={'request': rq, 'bbox': bbox, 'upstream_calls': calls,
                                                                     'sources': [e.s for e in entries]})
     st_.notes['judged_pixels'] += int(judged.sum())
+    if fmt == 'jpeg':
+        st_.notes['judged_pixels_jpeg'] += int(judged.sum())
+        st_.notes['unjudged_pixels_jpeg'] += int((~judged).sum())
     st_.notes['unjudged_pixels'] += int((~judged).sum())
 
     if not bad.any():
@@ -913,7 +920,7 @@ def check_request(case, rq, app, up, st_, open_sigs, ri):
             alt = compose(entries, rq, shape, opacity_of=lambda j, en: 1.0 if j == k else en.opacity, skip=others)
             if fmt == 'jpeg':
                 alt = np.concatenate([flatten(alt, rq['bgcolor'])[..., :3], np.full(shape + (1,), 255.0)], axis=-1)
-                j2 = judged & (local_range(alt[..., :3]) <= 40.0)
+                j2 = judged & (local_range(alt[..., :3]) <= 8.0)
             else:
                 j2 = judged
             bad2, _, _ = compare(got, alt, j2, tol, transparent_result)
@@ -997,6 +1004,7 @@ def _open_signatures():
 
 
 _SCRATCH = {}
+_AFTER = {}
 
 
 def check_case(case, st_, collect=None):
@@ -1004,6 +1012,13 @@ def check_case(case, st_, collect=None):
     open_sigs = _open_signatures() if collect is None else set()
     # one scratch directory per process (creating/removing a directory per case dominated the run time); it only
     # ever holds mapproxy.yaml and the coverage files of the current case and is removed by its owner
+    if collect is None and _AFTER.get('left') is not None:
+        # once a shard has a violation, 200 further cases are searched for other root causes, the rest of the
+        # budget is skipped (the verdict is already VIOLATION; skipped cases are counted as inconclusive)
+        if _AFTER['left'] <= 0:
+            st_.inconclusive['cases skipped after the first violation of the shard'] += 1
+            return None
+        _AFTER['left'] -= 1
     own = 'dir' not in _SCRATCH
     base = tempfile.mkdtemp(prefix='c14_') if own else _SCRATCH['dir']
     try:
@@ -1025,6 +1040,8 @@ def check_case(case, st_, collect=None):
                         collect.append(v)
                     else:
                         first = v
+                        if _AFTER.get('left') is None:
+                            _AFTER['left'] = 200
                         break
         return first
     finally:
